@@ -150,6 +150,110 @@ def xyz_declared_counts(text: str, nframes: int):
     return out
 
 
+def mol2_line_roles(text: str):
+    """role of every line of an UNdamaged mol2 text by an independent scan: 'atom' / 'bond' for the lines between an
+    ATOM / BOND tag and the next tag, 'header' for the four lines after a MOLECULE tag, 'other' otherwise"""
+    lines = text.split("\n")
+    roles, cur, hdr = [], "other", 0
+    for l in lines:
+        t = l.strip()
+        if hdr > 0:
+            roles.append("header")
+            hdr -= 1
+            continue
+        if t.startswith("@<TRIPOS>"):
+            m = re.match(r"@<TRIPOS>([A-Z_]+)", t)
+            tag = m.group(1) if m else ""
+            cur = {"ATOM": "atom", "BOND": "bond"}.get(tag, "other")
+            if tag == "MOLECULE":
+                hdr = 4
+            roles.append("tag")
+        else:
+            roles.append(cur)
+    return lines, roles
+
+
+def xyz_line_roles(text: str):
+    lines = text.split("\n")
+    roles, p = ["other"] * len(lines), 0
+    while p < len(lines):
+        try:
+            n = int(lines[p])
+        except ValueError:
+            break
+        for q in range(p + 2, min(p + 2 + max(n, 0), len(lines))):
+            roles[q] = "atom"
+        p += 2 + max(n, 0)
+    return lines, roles
+
+
+UNKNOWN_TAGS = ["COMMENT", "SUBSTRUCTURE", "SET", "CRYSIN", "ALT_TYPE", "FF_PBC", "X", "ATOMS", "MOLECULES_"]
+BLOCK_CONTENT = ["converted with some third-party tool", "1 RES1 1 GROUP 0 **** **** 0", "3", "****", "1 1 2 1",
+                 "      9 C9  0.000000 0.000000 0.000000 C.3 1 UNL1 0.000", "# looks like a comment", "", "a b", "1 1",
+                 "charge 1"]
+FILLER = ["", "# a comment line", "   ", "#", "\t"]
+
+
+def gen_structured_mol2(rng, en, ml, max_atoms: int):
+    """a mol2 text of 1..3 molecules with a VARIED block structure (what foreign writers produce and the reader
+    accepts): unsupported @<TRIPOS> blocks with content lines at every position (before the first MOLECULE, between
+    header and ATOM, between ATOM and BOND, after BOND, between molecules), blank / comment lines between sections,
+    header variants (status line blank / missing / '****' + comment / free text; 2..5 counts), BOND before ATOM,
+    UNITY_ATOM_ATTR. Atom and bond records are molli's own."""
+    def filler():
+        return [rng.choice(FILLER) for _ in range(rng.weighted([(0, 5), (1, 3), (2, 1)]))]
+
+    def unknown_blocks(prob_num, prob_den):
+        out = []
+        while rng.chance(prob_num, prob_den):
+            out.append("@<TRIPOS>" + rng.choice(UNKNOWN_TAGS))
+            out += [rng.choice(BLOCK_CONTENT) for _ in range(rng.range(0, 3))]
+            prob_den *= 3
+        return out
+
+    lines = filler() + unknown_blocks(1, 4)
+    nmol = rng.weighted([(1, 2), (2, 3), (3, 1)])
+    for mi in range(nmol):
+        spec = tl.gen_mol_spec(rng, en, max_atoms, specials=False, name=rng.choice(["m%d" % mi, "second mol", "x y", "C 1"]))
+        w = tl.build_molecule(en, spec, ml.Molecule).dumps_mol2().split("\n")
+        ia, ib = w.index("@<TRIPOS>ATOM"), w.index("@<TRIPOS>BOND")
+        atoms, bonds = w[ia + 1: ib], [x for x in w[ib + 1:] if x != ""]
+        na, nb = len(atoms), len(bonds)
+        lines.append(rng.choice(["@<TRIPOS>MOLECULE", "@<TRIPOS>MOLECULE", "  @<TRIPOS>MOLECULE  "]))
+        lines.append(spec["name"])
+        lines.append(rng.choice([f"{na} {nb}", f"{na} {nb} 0 0 0", f" {na}   {nb} 1", f"{na} {nb} 0 0 0 0 0"]))
+        lines.append(rng.choice(["SMALL", "BIOPOLYMER"]))
+        lines.append(rng.choice(["USER_CHARGES", "GASTEIGER", "USER_CHARGES", "NO_CHARGES"]))
+        st = rng.below(5)
+        if st == 0:
+            pass                                    # no status line: the next tag is read as status bits and put back
+        elif st == 1:
+            lines += ["****", rng.choice(["a comment after the status bits", "1 2 3", "# hash"])]
+        elif st == 2:
+            lines.append(rng.choice(["BITS", "system"]))
+        else:
+            lines.append("")
+        sections = [["@<TRIPOS>ATOM"] + atoms, ["@<TRIPOS>BOND"] + bonds]
+        if na >= 1 and rng.chance(1, 5):
+            k = rng.range(1, na)
+            sections[0] = sections[0] + rng.choice([["@<TRIPOS>UNITY_ATOM_ATTR", f"{k} 1", "charge 1"],
+                                                     ["@<TRIPOS>UNITY_ATOM_ATTR", f"{k} 2", "charge -1", "foo bar"]])
+        if rng.chance(1, 6):
+            sections.reverse()
+        if rng.chance(1, 12):
+            sections = sections[:1]                 # a molecule without its second section (rejected as a whole)
+        if st != 0:
+            lines += filler()
+        lines += unknown_blocks(2, 5)               # between header and the first record section
+        lines += sections[0]
+        lines += filler() + unknown_blocks(2, 5)    # between the record sections
+        if len(sections) > 1:
+            lines += sections[1]
+        lines += filler() + unknown_blocks(1, 3)    # after the last section / between molecules
+    text = "\n".join(lines)
+    return text + ("" if rng.chance(1, 6) else "\n")
+
+
 # --------------------------------------------------------------------------------------------
 def run(ctx):
     import warnings
@@ -159,9 +263,11 @@ def run(ctx):
     warnings.simplefilter("ignore")   # "TRIPOS block … is not implemented" for every damaged tag
     en = tl.Enums()
     ctx.rule = ("base texts: generated multi-molecule mol2 (1..3 molecules incl. 0-bond and 0-atom ones, written by "
-                "molli) and multi-frame xyz texts, plus the bundled .mol2/.xyz files; damage: EVERY line-boundary "
-                "truncation and EVERY byte offset of the last record, plus seeded line deletions / duplications / "
-                "swaps / token corruptions. A case = one damaged text through the real reader (5 s limit), the model "
+                "molli), STRUCTURED mol2 texts with a varied block layout (unsupported @<TRIPOS> blocks with content at "
+                "every position, blank/comment lines, header variants, BOND before ATOM, UNITY attributes), multi-frame "
+                "xyz texts, plus the bundled .mol2/.xyz files; damage: EVERY line-boundary truncation, EVERY byte offset "
+                "of the last record, EVERY single-line duplication and deletion, plus seeded swaps / token "
+                "corruptions. A case = one damaged text through the real reader (5 s limit), the model "
                 "reader and the oracle. Non-trivial: the damaged text differs from the base text and still contains "
                 "at least one complete header; distinct by text hash.")
     ctx.assumptions += [
@@ -201,7 +307,7 @@ def run(ctx):
         return "hang" if st == "hang" else "err"
 
     # ------------------------------------------------------------------ one damaged mol2 text
-    def case_mol2(base_name, base_text, base_mols, kind, text, cut=None):
+    def case_mol2(base_name, base_text, base_mols, kind, text, cut=None, record=None, in_last_token=False):
         ctx.check_deadline()
         nontrivial = text != base_text and bool(RE_MOLTAG.search(text))
         ctx.case("mol2:" + text, nontrivial)
@@ -230,7 +336,9 @@ def run(ctx):
         segs = mol2_segments(text)
         if len(segs) == len(impl):
             for k, seg in enumerate(segs):
-                alone = load_mol2(seg)
+                # a segment that is followed by another molecule is closed by a tag line in the full text (the
+                # UNITY attribute loop reads up to the next tag); an unsupported tag stands in for it
+                alone = load_mol2(seg if k == len(segs) - 1 else seg + "\n@<TRIPOS>END_OF_SEGMENT\n")
                 if alone == "err" or alone == "hang" or len(alone) != 1 or not tl.mols_equal([impl[k]], alone):
                     ctx.violation("C10:cross-molecule-state",
                                   f"{kind} of {base_name}: molecule {k} was returned with content its own text does not contain "
@@ -239,11 +347,19 @@ def run(ctx):
         # (2) truncations: a content-equal prefix of the undamaged molecules
         if kind.startswith("cut") and base_mols != "err":
             if len(impl) > len(base_mols) or not tl.mols_equal(impl, base_mols[: len(impl)]):
-                ctx.violation("C10:truncated-mol2-partial",
-                              f"{kind} of {base_name} at {cut}: returned molecules are not a prefix of the undamaged file's molecules", replay)
+                # a cut strictly inside a token of the final line is accepted only when that line is an ATOM record
+                # (foreign layout: ATOM section last) whose shortened type / charge token is still valid — the mol2
+                # twin of D22; a bond line's type token has no acceptable proper prefix (theorem)
+                k = "C10:mol2-cut-inside-last-atom-record" if in_last_token else "C10:truncated-mol2-partial"
+                ctx.violation(k, f"{kind} of {base_name} at {cut}: returned molecules are not a prefix of the undamaged file's molecules", replay)
+        # (4) a duplicated / deleted ATOM or BOND record shifts the count-driven section: if the text is accepted at
+        #     all, the molecules must still be those of the undamaged file
+        if record is not None and base_mols != "err" and not tl.mols_equal(impl, base_mols):
+            ctx.violation("C10:damaged-record-accepted",
+                          f"{kind} of {base_name}: {record} record line {cut}: the text was accepted and a molecule differs from the undamaged file's", replay)
 
     # ------------------------------------------------------------------ one damaged xyz text
-    def case_xyz(base_name, base_text, base_frames, kind, text, cut=None, in_last_number=False):
+    def case_xyz(base_name, base_text, base_frames, kind, text, cut=None, in_last_number=False, record=None):
         ctx.check_deadline()
         ctx.case("xyz:" + text, text != base_text and len(text) > 0)
         ctx.count(f"xyz:{kind}")
@@ -267,6 +383,9 @@ def run(ctx):
             if len(impl) > len(base_frames) or not tl.frames_equal(impl, base_frames[: len(impl)]):
                 k = "C10:xyz-cut-inside-last-number" if in_last_number else "C10:truncated-xyz-partial"
                 ctx.violation(k, f"{kind} of {base_name} at byte {cut}: a frame was returned whose content differs from the undamaged file", replay)
+        if record is not None and base_frames != "err" and not tl.frames_equal(impl, base_frames):
+            ctx.violation("C10:damaged-record-accepted",
+                          f"{kind} of {base_name}: atom line {cut}: the text was accepted and a frame differs from the undamaged file's", replay)
 
     # ------------------------------------------------------------------ base texts
     mol2_bases, xyz_bases = [], []
@@ -281,6 +400,9 @@ def run(ctx):
         specs = [tl.gen_mol_spec(rng, en, 6 if quick else 14, specials=False, name=rng.choice(["m1", "second mol", "x", "@<TRIPOS>ATOM"])) for _ in range(k)]
         text = "".join(tl.build_molecule(en, s, ml.Molecule).dumps_mol2() for s in specs)
         mol2_bases.append((f"gen{i}", text))
+    for i in range(10 if quick else 120):
+        mol2_bases.append((f"struct{i}", gen_structured_mol2(rng, en, ml, 4 if quick else 10)))
+        ctx.count("mol2:structured_base_texts")
     from harness import c08
     for i in range(n_gen):
         k = rng.weighted([(1, 1), (2, 3), (3, 2)])
@@ -297,7 +419,7 @@ def run(ctx):
         if t.isascii() and len(t) <= size_cap:
             xyz_bases.append((p.name, t))
 
-    n_mut = 25 if quick else 250
+    n_mut = 15 if quick else 200
     for name, text in mol2_bases:
         base = load_mol2(text)
         ctx.count("mol2:base_texts")
@@ -308,8 +430,19 @@ def run(ctx):
         for c in cuts:
             case_mol2(name, text, base, "cut-line", text[:c], cut=c)
         a, b = last_record_span(text)
+        blines, broles = mol2_line_roles(text[:b])
+        last_is_atom = bool(broles) and broles[-1] == "atom"
         for c in range(a, b + 1):
-            case_mol2(name, text, base, "cut-byte", text[:c], cut=c)
+            inside_tok = last_is_atom and a < c < b and not text[c - 1].isspace() and not text[c].isspace()
+            case_mol2(name, text, base, "cut-byte", text[:c], cut=c, in_last_token=inside_tok)
+        lines, roles = mol2_line_roles(text)
+        idx = list(range(len(lines) - 1 if lines and lines[-1] == "" else len(lines)))
+        if len(idx) > 150:
+            idx = sorted(set(rng.choice(idx) for _ in range(100)))
+        for i in idx:
+            rec = roles[i] if roles[i] in ("atom", "bond") else None
+            case_mol2(name, text, base, "dup-each", "\n".join(lines[:i] + [lines[i]] + lines[i:]), cut=i, record=rec)
+            case_mol2(name, text, base, "del-each", "\n".join(lines[:i] + lines[i + 1:]), cut=i, record=rec)
         for _ in range(n_mut):
             kind, dt = mutate(rng, text)
             case_mol2(name, text, base, kind, dt)
@@ -329,6 +462,14 @@ def run(ctx):
         last_tok_start = a + (len(rec) - len(rec.split()[-1])) if rec.split() else b
         for c in range(a, b + 1):
             case_xyz(name, text, base, "cut-byte", text[:c], cut=c, in_last_number=(last_tok_start < c < b))
+        lines, roles = xyz_line_roles(text)
+        idx = list(range(len(lines) - 1 if lines and lines[-1] == "" else len(lines)))
+        if len(idx) > 150:
+            idx = sorted(set(rng.choice(idx) for _ in range(100)))
+        for i in idx:
+            rec = "atom" if roles[i] == "atom" else None
+            case_xyz(name, text, base, "dup-each", "\n".join(lines[:i] + [lines[i]] + lines[i:]), cut=i, record=rec)
+            case_xyz(name, text, base, "del-each", "\n".join(lines[:i] + lines[i + 1:]), cut=i, record=rec)
         for _ in range(n_mut):
             kind, dt = mutate(rng, text)
             case_xyz(name, text, base, kind, dt)
